@@ -6,6 +6,7 @@ import KrillModel.Drivers.AggStore
 import KrillModel.Drivers.Pure
 import KrillModel.Drivers.SysObjects
 import KrillModel.Drivers.SysKeys
+import KrillModel.Drivers.SysStatus
 
 def main (args : List String) : IO UInt32 := do
   match args with
@@ -20,4 +21,5 @@ def main (args : List String) : IO UInt32 := do
   | "sysobjects" :: rest => KM.Drv.SysObjects.main rest; return 0
   | ["syskeys"] => KM.Drv.SysKeys.main; return 0
   | ["syskeys", prop] => KM.Drv.SysKeys.main prop; return 0
+  | ["sysstatus"] => KM.Drv.SysStatus.main; return 0
   | _ => IO.eprintln "usage: kmodel <stream>"; return 2
